@@ -66,6 +66,53 @@ ALL_NAMES = RESERVED_OWN + RESERVED_OTHER + NEAR_MISS
 # Rust sources (command-free) for output directories that lie inside the project path
 RS_NAMES = ["generated_cmds.rs", "api_generated.rs", "helpers.rs", "types.rs", "my_generated_mod.rs", "generated.rs",
             "index.rs", "generated_.rs"]
+
+
+def systematic_near_misses():
+    """Names built from every reserved name by inserting / appending / prepending segments and characters,
+    case changes, neighbouring extensions, and the .tmp siblings of every written file. Deterministic.
+    Some of them are reserved by the text (e.g. types_generated.ts); reserved_py / reserved_name_b decide."""
+    stems = ["types", "commands", "events", "index", "schemas", "models", "bindings"]
+    out = []
+    for st in stems:
+        for ext in (".ts", ".d.ts"):
+            n = st + ext
+            out += [st + ".test" + ext, st + ".spec" + ext, st + ".mock" + ext, st + ".legacy" + ext, st + ".x" + ext,
+                    st + ".custom" + ext, st + ".extra" + ext,                    # stem.x.ts
+                    n + ".bak", n + ".old", n + ".map", n + ".orig", n + ".tmp", n + "~", n + ".x",   # stem.ts.x
+                    "my." + n, "x." + n, "a.b." + n,                              # x.stem.ts
+                    st + "-x" + ext, st + "-old" + ext, st + "_x" + ext, st + "_old" + ext,          # stem-x.ts
+                    st + "x" + ext, st + "2" + ext, st + "s" + ext,                # stemx.ts
+                    "x" + n, "my" + n, "my-" + n, "_" + n, "." + n,                # xstem.ts
+                    st.upper() + ext, st.capitalize() + ext, st + ext.upper(),     # STEM.ts
+                    n + "x", st + ext.replace(".ts", ".tsx"), st + ext.replace(".ts", ".mts"),
+                    st + ext.replace(".ts", ".cts"), st + ext.replace(".ts", ".js"), st + ext.replace(".ts", ".t"),
+                    st + ext + " ", " " + n, st + " " + ext]
+        out += [st, st + ".", st + ".d", st + ".d.ts.map", st + ".d.tsx", st + ".d.d.ts", st + "..ts", st + ".ts.d.ts",
+                st + ".tmp", st + ".d.tmp", st + ".json", st + ".rs.bak"]
+    for n in (".typecache", "dependency-graph.txt", "dependency-graph.dot"):
+        base, dot, ext = n.rpartition(".")
+        out += [n + ".bak", n + ".old", n + ".tmp", n + "~", n + "2", n + ".x", "x" + n, "my-" + n, "x." + n, n.upper(),
+                n.capitalize(), n.lstrip("."), "_" + n]
+        if base:
+            out += [base, base + ".tmp", base + ".svg", base + ".png", base + ".TXT", base + "-x." + ext, base + "x." + ext,
+                    base.replace("-", "_") + "." + ext, base + "." + ext + "x"]
+    out += [".typecache.lock", ".type_cache", ".typecaches", "typecache.json", ".cache"]
+    for a in ("generated", "_generated", "generated_"):
+        out += [a, a + ".ts", a + ".d.ts", a + ".txt", a + ".json", a + ".tmp", a.upper(), a.capitalize(), a + "x", "x" + a,
+                a + ".bak", "." + a, a.replace("_", "-"), a.replace("_", "-") + "x.ts", "x" + a.replace("_", "-") + ".ts"]
+    out += ["Generated_x.ts", "GENERATED_x.ts", "x_Generated.ts", "x_GENERATED.ts", "x-generated.ts", "generated-x.ts",
+            "xgenerated_.ts", "x_generate.ts", "_generate", "generate_d.ts", "x_generatedx.md", "generated_x", "x_generated",
+            "a_generated.b_generated.ts", "generated_generated_", "_gener_ated", "gen_erated_x.ts", "x__generated.ts"]
+    seen, res = set(), []
+    for n in out:
+        if n not in seen and n not in (".", "..") and "/" not in n and n != ".write_test":
+            seen.add(n)
+            res.append(n)
+    return res
+
+
+SYSTEMATIC = systematic_near_misses()
 FRAGMENTS = ["generated", "_", "types", ".ts", ".d", "x", "index", "-", "G", "_generated", "generated_", ".", "events",
              "models", "cache", "type", "s", "command", ".write_test", "dependency-graph", ".txt"]
 
@@ -503,7 +550,8 @@ def structured_scenarios(rng, count):
         # foreign content of the output directory
         if lname != "deep-missing" or rng.random() < 0.4:
             pool = [n for n in ALL_NAMES if n != ".write_test"]
-            names = rng.sample(pool, rng.randint(0, 7)) + [random_name(rng) for _ in range(rng.randint(0, 3))]
+            names = rng.sample(pool, rng.randint(0, 7)) + rng.sample(SYSTEMATIC, rng.randint(0, 6)) \
+                + [random_name(rng) for _ in range(rng.randint(0, 3))]
             if rng.random() < 0.12:
                 names.append(".write_test")
             populate(rng, files, dirs, out, sorted(set(names)))
@@ -599,6 +647,27 @@ def sweep_scenarios():
                                 "dirs": ["app/gen/" + n], "files": {"app/tauri.conf.json": conf, "app/gen/" + n + "/keep.ts": "kept",
                                                                     "app/gen/user.ts": "user"},
                                 "runs": [{"entry": e, "variant": "cmds", "args": args}]})
+    for e in ("generate", "build"):
+        args = {"p": "./src-tauri", "o": "./gen", "viz": True} if e == "generate" else {}
+        runs = [{"entry": e, "variant": "cmds", "args": args}, {"entry": e, "variant": "nocmds", "args": args},
+                {"entry": e, "variant": "events", "args": dict(args, force=True) if e == "generate" else args}]
+        files = {"app/tauri.conf.json": conf}
+        for n in SYSTEMATIC:
+            files["app/gen/" + n] = "foreign " + n
+        scs.append({"name": "sweep-systematic-files-%s" % e, "cwd": "app", "proj_dir": "app/src-tauri", "dirs": [],
+                    "files": files, "runs": runs})
+        files = {"app/tauri.conf.json": conf, "app/gen/user.ts": "user"}
+        for n in SYSTEMATIC:
+            files["app/gen/" + n + "/keep.ts"] = "kept " + n
+        scs.append({"name": "sweep-systematic-dirs-%s" % e, "cwd": "app", "proj_dir": "app/src-tauri", "dirs": [],
+                    "files": files, "runs": runs})
+        # the same names nested one level down and beside the output directory
+        files = {"app/tauri.conf.json": conf}
+        for n in SYSTEMATIC[::3]:
+            files["app/gen/sub/" + n] = "nested " + n
+            files["app/" + n] = "beside " + n
+        scs.append({"name": "sweep-systematic-elsewhere-%s" % e, "cwd": "app", "proj_dir": "app/src-tauri", "dirs": [],
+                    "files": files, "runs": runs})
     return scs
 
 
